@@ -385,7 +385,7 @@ def r5_selection(ctx):
     # all() = every node of the hierarchy
     allf = ctx.prog.func(f'{N.MAPPER}.all')
     rets = symex.returns(allf)
-    ok = len(rets) == 1 and src(rets[0][1]) in ('cls._nodes(cls.hierarchy)', 'cls._nodes(tree=cls.hierarchy)')
+    ok = len(rets) == 1 and F.same(ctx, allf, rets[0][1], 'cls._nodes(cls.hierarchy)')
     ctx.check(ok, 'R5', allf.loc, allf.qualname, 'all-is-nodes-of-root', 'all() is the node set of the whole hierarchy')
     # nodes(parent) = _nodes(_find_subtree(root, parent)), empty set when not found
     nodes = ctx.prog.func(f'{N.MAPPER}.nodes')
